@@ -71,6 +71,9 @@ HAND = [
     "# javascript and github\n\nJavaScript GitHub\n",
 ]
 N_CORPUS = 40
+# a second configuration with the per-file "first style seen" modes that the defaults do not use
+ALT_SETS = ["plugins.md004.style=sublist", "plugins.md029.style=ordered", "plugins.md003.style=consistent", "plugins.md007.indent=$#4", "plugins.md012.maximum=$#2",
+            "plugins.md024.siblings_only=$!True", "plugins.md044.names=JavaScript,GitHub", "plugins.md026.punctuation=.?"]
 
 
 def universe_hash():
@@ -139,22 +142,33 @@ def run_items(items, job):
     R = PL.Result()
     single_scan = {}
     single_fix = {}
+    cfg = {"sets": ()}
 
     def scan_alone(d):
+        d = (d, cfg["sets"])
+        return _scan_alone(d)
+
+    def fix_alone(d):
+        d = (d, cfg["sets"])
+        return _fix_alone(d)
+
+    def _scan_alone(dk):
+        d = dk
         if d not in single_scan:
             sb.clear_files()
-            p = sb.write_bytes("x.md", docs[d].encode("utf-8"))
-            o = app.scan_files([p], only=allr)
+            p = sb.write_bytes("x.md", docs[d[0]].encode("utf-8"))
+            o = app.scan_files([p], only=allr, sets=d[1])
             R.count("invocations")
             bad = o.watchdog or o.tokenization_error or o.plugin_error or (bool(o.err) and "Error" in o.errtext)
             single_scan[d] = None if bad else (sorted(f[1:] for f in o.failures), sorted(e[1:] for e in o.pragma_errors))
         return single_scan[d]
 
-    def fix_alone(d):
+    def _fix_alone(dk):
+        d = dk
         if d not in single_fix:
             sb.clear_files()
-            p = sb.write_bytes("x.md", docs[d].encode("utf-8"))
-            o = app.fix_files([p], only=allr)
+            p = sb.write_bytes("x.md", docs[d[0]].encode("utf-8"))
+            o = app.fix_files([p], only=allr, sets=d[1])
             R.count("invocations")
             single_fix[d] = None if app.fix_error_kind(o) else (sb.read("x.md"), bool(o.fixed))
         return single_fix[d]
@@ -163,24 +177,27 @@ def run_items(items, job):
         if isinstance(it, dict):
             key, hist = it["key"], it["hist"]
         elif it.startswith("API:"):
+            cfg["sets"] = ()
             _api_sequence(int(it.split(":")[1]), docs, allr, sb, R, scan_alone, PyMarkdownApi, PyMarkdownApiException)
             continue
         else:
             key, hist = it, decode(int(it.split(":")[1]))
         R.evals += 1
+        hi = int(key.split(":")[1]) if key.startswith("H:") else 0
+        cfg["sets"] = tuple(ALT_SETS) if hi % 3 == 0 else ()
         if any(docs[d] == "" for d in hist):
             R.skip("empty-document-in-history")
             continue
         alone = [scan_alone(d) for d in hist]
         alone_fix = [fix_alone(d) for d in hist]
         v = set()
-        detail = {"history": hist, "docs": [docs[d] for d in hist]}
+        detail = {"history": hist, "docs": [docs[d] for d in hist], "config": list(cfg["sets"])}
         names = [f"f{j}.md" for j in range(len(hist))]
         # names sort in argument order, and the application processes files in sorted order
         if all(a is not None for a in alone):
             sb.clear_files()
             paths = [sb.write_bytes(n, docs[d].encode("utf-8")) for n, d in zip(names, hist)]
-            o = app.scan_files(paths, only=allr)
+            o = app.scan_files(paths, only=allr, sets=cfg["sets"])
             R.count("invocations")
             if not o.watchdog:
                 R.count("histories_compared")
@@ -200,7 +217,7 @@ def run_items(items, job):
         if all(a is not None for a in alone_fix):
             sb.clear_files()
             paths = [sb.write_bytes(n, docs[d].encode("utf-8")) for n, d in zip(names, hist)]
-            o = app.fix_files(paths, only=allr)
+            o = app.fix_files(paths, only=allr, sets=cfg["sets"])
             R.count("invocations")
             if not o.watchdog:
                 if app.fix_error_kind(o):
